@@ -12,6 +12,7 @@ import (
 	ppb "github.com/google/fhir/go/proto/google/fhir/proto/r4/core/resources/patient_go_proto"
 	"github.com/verily-src/fhirpath-go/fhirpath/patch"
 	"github.com/verily-src/fhirpath-go/fhirpath/verifharness/core"
+	"github.com/verily-src/fhirpath-go/fhirpath/verifharness/fx"
 	"github.com/verily-src/fhirpath-go/fhirpath/verifharness/gen"
 	"github.com/verily-src/fhirpath-go/fhirpath/verifharness/model"
 	"github.com/verily-src/fhirpath-go/internal/fhir"
@@ -29,7 +30,7 @@ func init() {
 		Assumptions: []string{"an error on an operation the model considers valid is not a violation (the statement constrains successes and failures, not which calls succeed); every (operation, path form) pair must have been observed to succeed at least once",
 			"sibling-type values (code for an enum-bound code, integer for positiveInt, id for a reference) may be normalised by the library: on success only the frame (everything but the target) and non-emptiness of the target are checked"},
 		Run:    runC18,
-		Checks: map[string]func(*core.Env, []json.RawMessage){"patch": replayC18, "seq": replayC18Seq, "codes": replayC18Codes, "aliasing": replayC18Aliasing},
+		Checks: map[string]func(*core.Env, []json.RawMessage){"patch": replayC18, "seq": replayC18Seq, "codes": replayC18Codes, "aliasing": replayC18Aliasing, "refadd": func(env *core.Env, a []json.RawMessage) { c18RefAdd(env) }},
 		Threshold: func(m *core.Merged) []string {
 			var r []string
 			for _, op := range []string{"add", "insert", "delete", "replace"} {
@@ -1001,6 +1002,59 @@ func c18Fixed(env *core.Env, totality bool) {
 	}
 }
 
+// c18RefAdd: Add of the `reference` element of a Reference. The element is a scalar held in a oneof (typed id,
+// fragment, uri): when any member is populated the element is populated, Add must fail and change nothing;
+// when none is, a successful Add makes `reference` read back the supplied string.
+func c18RefAdd(env *core.Env) {
+	defer env.In("refadd")()
+	env.Case()
+	forms := []struct {
+		name      string
+		ref       *dtpb.Reference
+		populated bool
+	}{
+		{"typed-id", &dtpb.Reference{Reference: &dtpb.Reference_OrganizationId{OrganizationId: &dtpb.ReferenceId{Value: "org1"}}}, true},
+		{"typed-id-with-history", &dtpb.Reference{Reference: &dtpb.Reference_PatientId{PatientId: &dtpb.ReferenceId{Value: "p9", History: &dtpb.Id{Value: "2"}}}}, true},
+		{"fragment", &dtpb.Reference{Reference: &dtpb.Reference_Fragment{Fragment: &dtpb.String{Value: "c1"}}}, true},
+		{"absolute-uri", &dtpb.Reference{Reference: &dtpb.Reference_Uri{Uri: &dtpb.String{Value: "https://example.org/fhir/Organization/7"}}}, true},
+		{"urn", &dtpb.Reference{Reference: &dtpb.Reference_Uri{Uri: &dtpb.String{Value: "urn:uuid:0d6ea7f5-2f0c-4d2f-8a4e-53a45b4a0e4b"}}}, true},
+		{"typed-id-and-display", &dtpb.Reference{Reference: &dtpb.Reference_PractitionerId{PractitionerId: &dtpb.ReferenceId{Value: "pr"}}, Display: &dtpb.String{Value: "Dr"}}, true},
+		{"display-only", &dtpb.Reference{Display: &dtpb.String{Value: "Org"}}, false},
+		{"identifier-only", &dtpb.Reference{Identifier: &dtpb.Identifier{Value: &dtpb.String{Value: "id"}}}, false},
+	}
+	for _, f := range forms {
+		for _, val := range []string{"Organization/2", "#c2", "https://example.org/fhir/Organization/8"} {
+			p := gen.StdPatient()
+			p.ManagingOrganization = proto.Clone(f.ref).(*dtpb.Reference)
+			before := protoBytes(p)
+			var perr error
+			out := env.Guard("patch.Add(reference)", func() {
+				perr = patch.Add(p, "Patient.managingOrganization", "reference", &dtpb.String{Value: val}, &patch.Options{})
+			})
+			env.Eval(1)
+			env.Cover("add-reference-of-a-reference")
+			if out.Panicked || out.Dead {
+				if !out.Dead {
+					env.Violatef("C18/panic@"+out.Site+"/"+core.NormMsg(out.PanicMsg), "patch.Add(reference) on a %s Reference panicked: %s", f.name, out.PanicMsg)
+				}
+				continue
+			}
+			changed := protoBytes(p) != before
+			switch {
+			case perr != nil && changed:
+				env.Violatef("C18/add-reference/error-but-mutated", "Add(Patient.managingOrganization, reference, %q) on a %s Reference returned %v but the resource changed", val, f.name, perr)
+			case perr == nil && f.populated:
+				env.Violatef("C18/add-reference/populated-scalar-overwritten", "Add(Patient.managingOrganization, reference, %q) on a %s Reference (reference populated) returned nil; resource now %s", val, f.name, trunc(jsonOf(p), 200))
+			case perr == nil:
+				r := fx.Eval(env, "Patient.managingOrganization.reference", []fhir.Resource{p}, nil, nil)
+				if it, ok := r.Single(); !ok || it.T != val {
+					env.Violatef("C18/add-reference/not-the-added-value", "Add(Patient.managingOrganization, reference, %q) on a %s Reference returned nil, but `reference` now reads %s", val, f.name, trunc(r.Short(), 100))
+				}
+			}
+		}
+	}
+}
+
 // c18Aliasing: the value handed to the operation, or a message shared by two elements, is the same Go object as
 // something already in the resource. Only the targeted element changes; the supplied value is not modified.
 func c18Aliasing(env *core.Env) {
@@ -1344,6 +1398,10 @@ func runC18(env *core.Env) {
 	n++
 	if env.Mine(n) {
 		c18Aliasing(env)
+	}
+	n++
+	if env.Mine(n) {
+		c18RefAdd(env)
 	}
 	types := gen.ResourceTypes()
 	per := env.Size(1, 8)
